@@ -37,9 +37,116 @@ def run(chk, repo):
     chk.doc("R12.5", "single consumer / single producer of send_queue")
     r1(chk, repo)
     r2(chk, repo)
-    r3(chk, repo)
+    r3_progress(chk, repo)
     r4(chk, repo)
     r5(chk, repo)
+    from . import c11
+    chk.doc("R12.6", "a rejected datagram leaves the packet untouched "
+                     "(Packet.append: shared with C11 R11.2)")
+    c11.accounting(chk, repo, "R12.6")
+
+
+def r3_progress(chk, repo):
+    """R12.3 by a small path-sensitive exploration: the flag that decides
+    whether a new request is fetched (`sent`) is tracked as a constant, and
+    so is which side of the 'was the flushed packet empty' test was taken"""
+    rule = "R12.3"
+    sym = ETH + "EtherCat.sendloop"
+    f = repo.func(sym)
+    cfg = CFG(f)
+    hs = [n for n in cfg.nodes if n.kind == "except" and n.tag.type is not None
+          and "OverflowError" in unparse(n.tag.type)]
+    need(len(hs) == 1, f"{sym}: OverflowError handler not found")
+    h = hs[0]
+    appends = [n for n in cfg.nodes if n.expr is not None and n.kind == "stmt"
+               and find("$p.append(*$d)", n.expr)]
+    gets = {n.id for n in cfg.nodes if n.expr is not None and
+            find("self.send_queue.get()", n.expr)}
+    need(appends and gets, f"{sym}: append/get not found")
+    lst = find("$l.append(($a, $b, $f))", f)
+    need(len(lst) == 1, f"{sym}: list of pending datagrams not found")
+    lname = unparse(lst[0][1]["l"])
+    # the flag tested before the queue is read
+    flag = None
+    for n in cfg.nodes:
+        if n.kind == "test" and isinstance(n.expr, ast.Name) and any(
+                m.id in gets for m, lab in n.succ if lab == "true"):
+            flag = n.expr.id
+    need(flag is not None, f"{sym}: the flag guarding the queue read was "
+                           f"not found")
+
+    def emptiness(test):
+        """which edge of this test means 'no datagram was collected'"""
+        if match(f"not {lname}", test) is not None or match(
+                f"len({lname}) == 0", test) is not None:
+            return "true"
+        if match(lname, test) is not None or match(
+                f"len({lname}) > 0", test) is not None:
+            return "false"
+        return None
+    appids = {n.id for n in appends}
+    seen = set()
+    stack = [(h, None, None, False, (h,))]
+    bad = None
+    while stack and bad is None:
+        n, val, emp, reset, path = stack.pop()
+        key = (n.id, val, emp, reset)
+        if key in seen:
+            continue
+        seen.add(key)
+        if n.id in gets:
+            continue   # a new request is fetched: progress
+        if n.id in appids and n is not h and len(path) > 1:
+            if emp == "empty":
+                bad = (path, "the same datagram is appended to an empty "
+                       "packet again without fetching a new request")
+            elif emp is None or not reset:
+                bad = (path, "the datagram is retried without establishing "
+                       "that the flushed packet carried other datagrams")
+            continue
+        if n.kind == "stmt" and isinstance(n.stmt, ast.Assign) and len(
+                n.stmt.targets) == 1:
+            t = unparse(n.stmt.targets[0])
+            if t == flag and isinstance(n.stmt.value, ast.Constant):
+                val = bool(n.stmt.value.value)
+            elif t == lname:
+                reset = True
+        for m, lab in n.succ:
+            if lab == "exc":
+                continue
+            e2 = emp
+            if n.kind == "test":
+                if isinstance(n.expr, ast.Name) and n.expr.id == flag \
+                        and val is not None and lab in ("true", "false"):
+                    if (lab == "true") != val:
+                        continue
+                em = emptiness(n.expr)
+                if em is not None and lab in ("true", "false"):
+                    e2 = "empty" if lab == em else "nonempty"
+            stack.append((m, val, e2, reset, path + (m,)))
+    chk.stats["paths"] += len(seen)
+    chk.ob(rule, sym, "overflow retry cannot repeat with identical state",
+           bad is None, h.tag,
+           (bad[1] + ": a request that does not fit an empty frame spins "
+            "the loop forever without reaching an await and starves the "
+            "event loop") if bad else
+           f"every path from the OverflowError handler back to the append "
+           f"fetches a new request, or has flushed a non-empty packet "
+           f"({len(seen)} states explored, flag `{flag}` tracked)",
+           cfg.describe_path(bad[0]) if bad else None)
+    # the request that can never fit is failed
+    tests = [n for n in cfg.reachable(h) if n.kind == "test"
+             and emptiness(n.expr) is not None]
+    failed = False
+    for t in tests:
+        st = t.stmt
+        if isinstance(st, ast.If):
+            br = st.body if emptiness(st.test) == "true" else st.orelse
+            if find("$f.set_exception($e)", br):
+                failed = True
+    chk.ob(rule, sym, "the request that cannot fit is failed", failed, h.tag,
+           "in the empty-packet branch the pending future receives the "
+           "exception")
 
 
 def r1(chk, repo):
